@@ -263,6 +263,11 @@ class MotionGen(object):
             else:
                 x = rng.randint(0, BED)
                 y = rng.randint(0, BED)
+                # axis origins and round coordinates (a value of exactly 0 is a classic edge)
+                if rng.random() < 0.08:
+                    x = 0
+                if rng.random() < 0.08:
+                    y = 0
             if want == "out" and self.excluded(x, y):
                 continue
             if want == "in" and not self.excluded(x, y):
@@ -502,6 +507,91 @@ class MotionGen(object):
         self.steps.append(("at", on[0], on[1], False))
         self.act_move()
 
+    def act_shadow(self):
+        """
+        Walk around a region with single-axis moves: go to a point whose X lies in the region's
+        X range (Y outside), move X alone out of that range (often to exactly 0), then move Y
+        alone into the region's Y range.  The true path never touches the region; a filter that
+        lost track of one axis sees the "shadow" of the old coordinate inside it.
+        """
+        rng = self.rng
+        gh = self.ghost
+        if not self.regions or gh.inch or not gh.abs or any(gh.off[a] for a in "XY"):
+            return
+        reg = rng.choice(self.regions)
+        box = region_bbox(reg)
+        swap = rng.random() < 0.5          # mirror the scenario (Y first, then X)
+        lo1, hi1, lo2, hi2 = (box[1], box[3], box[0], box[2]) if swap else \
+            (box[0], box[2], box[1], box[3])
+        a_in = rng.randint(lo1 // G_PER_MM + 1, max(lo1 // G_PER_MM + 1, hi1 // G_PER_MM - 1)) \
+            * G_PER_MM
+        b_in = rng.randint(lo2 // G_PER_MM + 1, max(lo2 // G_PER_MM + 1, hi2 // G_PER_MM - 1)) \
+            * G_PER_MM
+        b_out = rng.choice([max(0, lo2 - rng.randint(3, 20) * G_PER_MM), hi2 + 5 * G_PER_MM])
+        a_out = rng.choice([0, 0, max(0, lo1 - rng.randint(3, 20) * G_PER_MM), hi1 + 4 * G_PER_MM])
+        first, second = ("Y", "X") if swap else ("X", "Y")
+        pts = [{first: a_in, second: b_out}, {first: a_out, second: b_out},
+               {first: a_out, second: b_in}]
+        for pt in pts:
+            if self.excluded(pt["X"], pt["Y"]) or \
+                    self.min_border_distance(pt["X"], pt["Y"]) < G_PER_MM or \
+                    not self.disc_safe(pt["X"], pt["Y"]) or pt["X"] > BED or pt["Y"] > BED:
+                return
+        self.emit("G1 X%s Y%s" % (fmt_mm(pts[0]["X"]), fmt_mm(pts[0]["Y"])))
+        self.emit("G1 %s%s" % (first, fmt_mm(a_out)))
+        extrude = ""
+        if gh.ret == 0 and gh.eabs and rng.random() < 0.5:
+            gh.e += 10
+            extrude = " E" + fmt_mm(gh.e)
+        self.emit("G1 %s%s%s" % (second, fmt_mm(b_in), extrude))
+        gh.p["X"], gh.p["Y"] = pts[2]["X"], pts[2]["Y"]
+        gh.exact["X"] = gh.exact["Y"] = True
+
+    def act_rel_roundtrip(self):
+        """
+        Relative mode: enter a region, wander inside in 0.1 mm multiples whose float sum is not
+        exact, leave with a move that brings one axis back to where it started.  The net distance
+        on that axis is a round-off residue (e.g. 5.5e-17) -- what the exit move must spell out.
+        """
+        rng = self.rng
+        gh = self.ghost
+        rects = [r for r in self.regions if r["t"] == "rect" and r["x2"] - r["x1"] >= 4 * G_PER_MM
+                 and r["y2"] - r["y1"] >= 4 * G_PER_MM]
+        if not rects or gh.inch or self.excluded(gh.p["X"], gh.p["Y"]):
+            return
+        reg = rng.choice(rects)
+        inx, iny = reg["x1"] + 2 * G_PER_MM, reg["y1"] + 2 * G_PER_MM
+        if not gh.abs:
+            self.emit("G90")
+            gh.abs = True
+        # start from a point left of / below the region, a round distance away
+        sx, sy = reg["x1"] - 5 * G_PER_MM, iny
+        if sx < 0 or self.excluded(sx, sy) or self.min_border_distance(sx, sy) < G_PER_MM:
+            return
+        self.emit("G1 X%s Y%s" % (fmt_mm(sx), fmt_mm(sy)))
+        self.emit("G91")
+        gh.abs = False
+        if self.cfg["g90e"]:
+            gh.eabs = False
+        self.emit("G1 X%s" % fmt_mm(inx - sx))                      # enter
+        steps = rng.choice([(10, 20, -30), (5, 5, -10), (10, 10, 10, -30), (35, -35)])
+        for step in steps[:-1]:
+            self.emit("G1 X%s" % fmt_mm(step))
+        back = -(inx - sx) + steps[-1]
+        exit_y = -(4 * G_PER_MM + rng.randint(1, 10) * G_PER_MM)
+        ny = sy + exit_y
+        if ny < 0 or self.excluded(sx, ny) or self.min_border_distance(sx, ny) < G_PER_MM:
+            exit_y = 0
+            back -= 3 * G_PER_MM
+        self.emit("G1 X%s Y%s" % (fmt_mm(back), fmt_mm(exit_y)))   # leave: net X distance ~ 0
+        gh.p["X"] = sx + (0 if exit_y else -3 * G_PER_MM)
+        gh.p["Y"] = sy + exit_y
+        gh.exact["X"] = gh.exact["Y"] = False
+        self.emit("G90")
+        gh.abs = True
+        if self.cfg["g90e"]:
+            gh.eabs = True
+
     def act_deferred(self):
         rng = self.rng
         codes = list(self.cfg["xg"].keys()) or ["M204"]
@@ -620,7 +710,10 @@ class MotionGen(object):
             "at": 1.5 if self.useAt else 0, "deferred": 2.5 if self.useDeferred else 0.1,
             "other": 1.0, "arc": 2.5 if self.useArcs else 0, "addr": 0.0, "home": 0.15,
             "escope": 0.3 if self.outOfScope else 0.0,
-            "offon": 1.0 if self.useAt else 0.0,
+            "offon": 1.0 if (self.useAt and not self.cleanMode) else 0.0,
+            "shadow": 0.0 if self.cleanMode in ("noregions", "disabled") else 0.8,
+            "roundtrip": 0.0 if self.cleanMode else (1.5 if self.tiny else
+                                                     (0.3 if self.useRel else 0.0)),
         }
         if self.focus == "extrusion":
             weights["retract"] = 6
@@ -646,6 +739,10 @@ class MotionGen(object):
                 self.act_at()
             elif name == "offon":
                 self.act_off_on()
+            elif name == "roundtrip":
+                self.act_rel_roundtrip()
+            elif name == "shadow":
+                self.act_shadow()
             elif name == "deferred":
                 self.act_deferred()
             elif name == "other":
